@@ -266,6 +266,26 @@ fn float_leg(g: &Grammar, tier: Tier) -> Acc {
             }
         }
     }
+    // positional spellings: every mantissa below 1000 (and a few long ones) written with 4..45
+    // fractional digits, without an exponent (the digit count is what a table-driven parser indexes)
+    {
+        let long = ["9007199254740991", "9007199254740993", "4503599627370497", "123456789012345", "1", "3", "7", "9"];
+        for k in 4..=45usize {
+            for m in (1..1000usize).map(|m| m.to_string()).chain(long.iter().map(|s| s.to_string())) {
+                if m.len() > k {
+                    continue;
+                }
+                let frac = format!("{}{m}", "0".repeat(k - m.len()));
+                lits.push(format!("f0.{frac}"));
+                match (k + m.len()) % 4 {
+                    0 => lits.push(format!("f-.{frac}")),
+                    1 => lits.push(format!("f{m}.{frac}")),
+                    2 => lits.push(format!("f+0.{frac}")),
+                    _ => lits.push(format!("f-{m}.{frac}")),
+                }
+            }
+        }
+    }
     // plain spellings
     for m in 0..1000usize {
         lits.push(format!("f{m}"));
@@ -409,7 +429,7 @@ fn string_scalar_leg(g: &Grammar) -> Acc {
         .reduce(Acc::new, |a, b| a.merge(b))
 }
 
-fn string_atoms_leg(g: &Grammar) -> Acc {
+fn string_atoms_leg(g: &Grammar, piece_len: usize) -> Acc {
     let atoms: Vec<(&str, &str)> = vec![
         ("\\n", "\n"), ("\\r", "\r"), ("\\t", "\t"), ("\\\\", "\\"), ("\\'", "'"), ("\\\"", "\""), ("\\u{41}", "A"), ("\\u{1F600}", "😀"), ("a", "a"),
         ("\n", "\n"), ("\t", "\t"), ("😀", "😀"), ("é", "é"), ("'", "'"), ("//", "//"), (" ", " "), ("\r\n", "\r\n"), ("\u{0}", "\u{0}"),
@@ -442,9 +462,49 @@ fn string_atoms_leg(g: &Grammar) -> Acc {
             }
         }
     }
-    for (l, e) in lits.chunks(200).zip(exp.chunks(200)) {
-        check_batch(g, l, Some(e), &mut acc);
+    // below the level of whole escapes: every sequence of up to 5 pieces from an escaped backslash,
+    // the characters an escape is made of (`u`, `{`, `}`, hex digits, `n`), complete escapes and a
+    // plain letter — an escaped backslash followed by text that looks like an escape is just text
+    {
+        let pieces: [(&str, &str); 10] = [("\\\\", "\\"), ("u", "u"), ("{", "{"), ("}", "}"), ("41", "41"), ("\\u{41}", "A"), ("\\n", "\n"), ("\\\"", "\""), ("n", "n"), ("x", "x")];
+        let mut plits: Vec<String> = Vec::new();
+        let mut pexp: Vec<RV> = Vec::new();
+        let mut frontier: Vec<(String, String)> = vec![(String::new(), String::new())];
+        for _ in 0..piece_len {
+            let mut next = Vec::with_capacity(frontier.len() * pieces.len());
+            for (t, v) in &frontier {
+                for (pt, pv) in pieces {
+                    next.push((format!("{t}{pt}"), format!("{v}{pv}")));
+                }
+            }
+            for (t, v) in &next {
+                plits.push(format!("\"{t}\""));
+                pexp.push(RV::Str(v.clone()));
+            }
+            frontier = next;
+        }
+        acc.count("escape_piece_sequences", plits.len() as u64);
+        let acc_p = plits
+            .par_chunks(100)
+            .zip(pexp.par_chunks(100))
+            .map(|(l, e)| {
+                let mut a = Acc::new();
+                check_batch(g, l, Some(e), &mut a);
+                a
+            })
+            .reduce(Acc::new, |a, b| a.merge(b));
+        acc = acc.merge(acc_p);
     }
+    let acc_p = lits
+        .par_chunks(200)
+        .zip(exp.par_chunks(200))
+        .map(|(l, e)| {
+            let mut a = Acc::new();
+            check_batch(g, l, Some(e), &mut a);
+            a
+        })
+        .reduce(Acc::new, |a, b| a.merge(b));
+    acc = acc.merge(acc_p);
     // the same literals through the rule-text front end: every character of a string literal is
     // kept verbatim there too (raw CR LF, a line of the literal that starts with //)
     let extra: Vec<String> = vec!["\"a\r\nb\"".into(), "\"a\n// not a comment\nb\"".into(), "\"\n//\"".into(), "\"// x\"".into(), "\"a\rb\"".into()];
@@ -653,7 +713,7 @@ pub fn run(tier: Tier) -> i32 {
     rep.absorb(float_leg(&g, tier));
     rep.absorb(decimal_leg(&g));
     rep.absorb(string_scalar_leg(&g));
-    rep.absorb(string_atoms_leg(&g));
+    rep.absorb(string_atoms_leg(&g, tier.pick(5, 6)));
     rep.absorb(words_leg(&g));
     let fp = tier.pick(3, 5);
     rep.bound("layout_full_product_up_to_tokens", fp);
